@@ -82,7 +82,7 @@ def reproducible(spec, pristine, scratch, m, kw, ref):
         return False
 
 
-def diagnose(ctx, cname, spec, pristine, scratch, hist, q2, observed, kind):
+def diagnose(ctx, cname, spec, pristine, scratch, hist, q2, observed, kind, extra=None):
     """`hist` (list of (m, kw)) followed by q2 gave `observed`; find what a fresh object answers
     and the shortest reproducing prefix: a single earlier query if one suffices"""
     m2, kw2 = q2
@@ -109,14 +109,15 @@ def diagnose(ctx, cname, spec, pristine, scratch, hist, q2, observed, kind):
         ctx.fail({"kind": kind, "class": cname, "q1": m1, "q2": m2},
                  f"{cname}: {m2}({kw2}) asked after {m1}({kw1}) on one object differs from what a "
                  f"fresh object answers (the answer depends on the queries made before)",
-                 {"class": cname, "q1": m1, "q1_args": kw1, "q2": m2, "q2_args": kw2,
-                  "after_q1": brief(v), "fresh": brief(ref)})
+                 dict({"class": cname, "q1": m1, "q1_args": kw1, "q2": m2, "q2_args": kw2,
+                       "after_q1": brief(v), "fresh": brief(ref)}, **(extra or {})))
     else:
         ctx.fail({"kind": kind, "class": cname, "q2": m2, "history": len(hist)},
                  f"{cname}: {m2}({kw2}) after {len(hist)} other queries differs from what a fresh "
                  f"object answers",
-                 {"class": cname, "history": [f"{m}({kw})" for m, kw in hist], "q2": m2,
-                  "q2_args": kw2, "observed": brief(observed), "fresh": brief(ref)})
+                 dict({"class": cname, "history": [f"{m}({kw})" for m, kw in hist], "q2": m2,
+                       "q2_args": kw2, "observed": brief(observed), "fresh": brief(ref)},
+                      **(extra or {})))
     return True
 
 
@@ -279,7 +280,9 @@ def attr_oracle(ctx, eff, specs, used, quick):
                                 g_hit = rep[g]
                                 break
                         out.append(f"{s}={g_hit}")
-                    reqs.append(f"arun {cls.__name__} {','.join(chain)} {','.join(map(str, rep))}")
+                    reqs.append(f"arun {cls.__name__} {','.join(chain)} {','.join(map(str, rep))} "
+                                f"{1 if len(el) else 0}")
+                    ctx.count(f"{cname}:attr-chains:" + ("with-links" if len(el) else "link-less"))
                     impl.append(",".join(flags) + " | " + (";".join(out) or "-"))
                     ctx.count(f"{cname}:attr-chains")
     if reqs:
@@ -336,6 +339,7 @@ def int_length_oracle(ctx, used, quick):
         if 0 in ref:
             hit_n = bool(np.any(np.asarray(ref[0]) == n))
         ctx.count("int-lengths:distance-equal-N" if hit_n else "int-lengths:no-distance-equal-N")
+        spec = {"twin": lambda _p: mk()}
         for k1, (m1, kw1) in enumerate(Q):
             if k1 not in ref:
                 continue
@@ -344,6 +348,7 @@ def int_length_oracle(ctx, used, quick):
                 call(net, m1, kw1)
             except Exception:  # noqa
                 continue
+            hist = [(m1, kw1)]
             for k2, (m2, kw2) in enumerate(Q):
                 if k2 not in ref:
                     continue
@@ -352,20 +357,17 @@ def int_length_oracle(ctx, used, quick):
                          {"class": "Network", "q1": m1, "q2": m2, "lengths": "small integers"})
                 v = call(net, m2, kw2)
                 if not same(v, ref[k2]):
-                    # confirm on the ordered pair alone
-                    t = mk()
-                    call(t, m1, kw1)
-                    v2 = call(t, m2, kw2)
-                    pair = not same(v2, ref[k2])
-                    ctx.fail({"kind": "interference", "class": "Network", "q1": m1, "q2": m2},
-                             f"Network with integer link lengths: {m2}({kw2}) after {m1}({kw1}) "
-                             f"differs from what a fresh object answers",
-                             {"class": "Network", "adjacency": A.tolist(), "lengths": W.tolist(),
-                              "q1": m1, "q1_args": kw1, "q2": m2, "q2_args": kw2,
-                              "pair_alone_reproduces": pair,
-                              "observed": brief(v), "fresh": brief(ref[k2])})
-                    net = mk()
-                    call(net, m1, kw1)
+                    diagnose(ctx, "Network", spec, None, NoScratch, hist, (m2, kw2), v,
+                             "interference", extra={"adjacency": A.tolist(), "lengths": W.tolist(),
+                                                    "link_attribute": "len"})
+                    break
+                hist.append((m2, kw2))
+
+
+class NoScratch:
+    @staticmethod
+    def clean():
+        pass
 
 
 RANDOM_TOKENS = ("shuffled", "surrogate", "random", "bootstrap")
